@@ -1,6 +1,7 @@
 SPEC = {
-    "lean_modules": ["AM.Props.C05"],
+    "lean_modules": ["AM.Props.Suppress", "AM.Props.C05"],
     "theorems": [
+        "AM.Suppress.sent_lists_flush",
         "AM.Group.never_resolved_early", "AM.Group.partition_lists_all", "AM.Group.lookup_foldl_delStep",
         "AM.Group.refire_survives_flush", "AM.Group.delete_only_resolved_unmodified", "AM.Group.resolvedSlice_resolved",
         "AM.Group.destroy_only_if_empty", "AM.Group.insert_refused_iff_destroyed", "AM.Group.insert_lands",
